@@ -50,8 +50,10 @@ def optimize_xor_predicate[T](predicate: XorPredicate[T]) -> Predicate[T]:
                     return NotPredicate(OrPredicate(left=left, right=and_right))  # p ^ (^p & q) == ~(p | q)
                 case _, NotPredicate(not_predicate) if left == not_predicate:
                     return NotPredicate(OrPredicate(left=left, right=and_left))  # p ^ (q & ^p) == ~(p | q)
-                case _:
+                case _ if left == and_left:
                     return AndPredicate(left=left, right=NotPredicate(and_right))  # p ^ (p & q) = p & ~q
+                case _:
+                    return XorPredicate(left=left, right=right)
         case AndPredicate(), _:
             return optimize_xor_predicate(XorPredicate(left=right, right=left))
 
